@@ -341,6 +341,8 @@ def R3_accessors(run):
                     stored.add((callee_path(t) or "").rsplit("::", 1)[-1][4:])
                 if stored & set(want) and not (cfg.reach(fn, 0, cut_blocks=[bi]) & rets):
                     always |= stored
+                elif stored & set(want) and not A.atoms(fn) and bi in prov_of(fn).cycle_blocks():
+                    always |= stored    # the same store made element by element in a loop: only the end of the iteration gets past it
             lacking = [f for f in want if f not in always]
             run.check("R3", "copy-complete@" + path, not lacking, "%s does not store %s on every path (a partial update leaves stale values behind)" % (path, lacking),
                       loc=fn.loc(), detail="all %d fields of %s stored unconditionally" % (len(want), sty.rsplit("::", 1)[-1]))
